@@ -210,6 +210,14 @@ def make_traces(tier: str) -> List[Tuple[str, List[dict]]]:
             recs, files, res = traces.traced_launch(prog, rs, mode=mode)
             if recs:
                 out.append((f"launch:{'+'.join(prog)}:{mode}:exit{res.code}", recs))
+    # the same launch (one idempotency key / one explicit launch id and attempt) performed a second time in this process: what the
+    # runtime emits for the repetition is a trace like any other
+    prog0, rs0 = traces.LAUNCH_CASES[0]
+    for mode, extra in (("dir", ["--run-space-idempotency-key", "k-repeat"]), ("file", ["--run-space-launch-id", "L-repeat", "--run-space-attempt", "2"])):
+        traces.traced_launch(prog0, rs0, mode=mode, extra_args=extra)
+        recs, files, res = traces.traced_launch(prog0, rs0, mode=mode, extra_args=extra)
+        if recs:
+            out.append((f"launch-repeated:{'+'.join(prog0)}:{mode}:exit{res.code}", recs))
     # k-way interleavings of independent traces in ONE aggregator (per-run files read round-robin; two launches; a launch and a
     # stand-alone run): every run / launch keeps the verdict it has alone
     def rr(*seqs):
@@ -242,6 +250,14 @@ def _job(arg):
             out["viol"].append(("wrong-prefix-verdict", f"{name}: prefix of {k} records: aggregator {got} != documented {exp}",
                                 {"kind": "prefix", "trace": name, "records": pre}))
             break
+    # (a') a run / launch that went through (exit 0 / returned) is judged complete on its full trace: ties the verdict rules to what
+    # the producer really emits
+    if (name.startswith("launch") and name.endswith(":exit0")) or (name.startswith("single:") and name.endswith(":ok")):
+        full = impl_verdict(recs)
+        notc = {k: v["status"] for part in ("runs", "launches") for k, v in full[part].items() if v["status"] != "complete"}
+        if notc or (name.startswith("launch") and not full["launches"]):
+            out["viol"].append(("completed-execution-judged-incomplete", f"{name}: the execution went through, yet its full trace is judged {notc or 'to hold no launch'} "
+                                f"(record types {[r.get('record_type') for r in recs][:12]})", {"kind": "prefix", "trace": name, "records": recs}))
     # (b) subset lattice
     for pick in pick_records(recs, limit):
         s, t, v, distinct = lattice_search(recs, pick)
